@@ -17,3 +17,16 @@ int vs_active();
 void vs_set_max_steps(long n);
 void vs_suspend(int on);								// 1: the calling code runs outside the scheduler until vs_suspend(0) (threads created meanwhile are registered, never run)
 }
+
+// Harness bookkeeping shared between threads (event logs, global sequence counters) is serialised by the scheduler, which
+// ThreadSanitizer cannot see: such accesses are bracketed so that it ignores them (no happens-before edge is created,
+// unlike a lock annotation, so races in the code under test stay visible).
+#ifdef VERIF_TSAN
+extern "C" void __tsan_ignore_thread_begin(void);
+extern "C" void __tsan_ignore_thread_end(void);
+#define VS_BOOKKEEPING_BEGIN() __tsan_ignore_thread_begin()
+#define VS_BOOKKEEPING_END() __tsan_ignore_thread_end()
+#else
+#define VS_BOOKKEEPING_BEGIN() ((void)0)
+#define VS_BOOKKEEPING_END() ((void)0)
+#endif
